@@ -116,8 +116,38 @@ func Load(repo, goarch string) (*Ctx, error) {
 			}
 			return b
 		}
+		// helpers that the rules recognise by their construct (a one-byte bool writer, a string writer, a dispatch
+		// forwarder, the skip wrapper, a pool release) are kept as functions: the rules read them as such
+		skip := map[string]bool{}
+		if nf := newFuncKeys(mod); len(nf) > 0 {
+			prog0, _ := ssautil.AllPackages(pkgs, ssa.InstantiateGenerics)
+			prog0.Build()
+			for fn := range ssautil.AllFunctions(prog0) {
+				if fn.Blocks == nil || fn.Pkg == nil || fn.Parent() != nil {
+					continue
+				}
+				key := fn.Pkg.Pkg.Path() + "\t" + fn.Name()
+				if recv := fn.Signature.Recv(); recv != nil {
+					key = fn.Pkg.Pkg.Path() + "\t" + namedOf(recv.Type()) + "." + fn.Name()
+				}
+				if !nf[key] {
+					continue
+				}
+				role := isBoolEmitHelper(fn) || strEmitHelper(fn) || isDispatchHelper(fn) || skipWrapperOf(fn) >= 0
+				for pname := range poolTable {
+					if releaseParam(fn, pname) >= 0 {
+						role = true
+					}
+				}
+				if role {
+					skip[key] = true
+					c.ExpandNotes = append(c.ExpandNotes, "kept as a function (recognised by construct): "+fn.Name())
+				}
+			}
+			strEmitMemo = map[*ssa.Function]bool{}
+		}
 		for pass := 1; pass <= 4; pass++ {
-			ov, notes := expandHelpers(mod, pkgs[0].Fset, readSrc, pass)
+			ov, notes := expandHelpers(mod, pkgs[0].Fset, readSrc, pass, skip)
 			if len(ov) == 0 {
 				break
 			}
